@@ -233,39 +233,27 @@ def tab_l1(ctx):
                 if isinstance(x, int):
                     bounds.append(x)
     dom = list(range(0, max(bounds) + 2))
-    scrut = T.strip(m["scrut"])["name"]
-    rows, rest = T.int_match_table(m, dom)
-    enc = {}
-    site = {}
-    for vals, bind, guard, body, arm in rows:
-        for v in vals:
-            enc[v] = _arm_result_with_scrut(f, body, bind, scrut, v)
-            site[v] = T.span_str(arm["span"])
-    # the match value is bound by `let latin1_ch = match ..; out.push(latin1_ch)`: check the push consumes it
-    sts, _ = T.fn_stmts(f, "data::utf8_to_latin1")
-    pushes = [s for s in T.stmt_walk(sts) if s[0] == "expr" and s[1][0] == "call" and s[1][1].endswith("Vec::push")]
-    ok_push = len(pushes) == 1 and (pushes[0][1][2][1][0] == "var" or (pushes[0][1][2][1][0] == "match" and pushes[0][1][2][1][1][:2] == ("var", "ch")))
-    obs.append(Ob(r, "enc-push", ok_push, "utf8_to_latin1 pushes exactly the matched byte once per character", detail=[T.sx_show(p[1]) for p in pushes]))
+    # the loop body `for ch in s.chars() { .. out.push(<byte>) }` folded for every code point of the domain
+    def as_val(t):
+        return ("val", t[1]) if t and t[0] == "push" else t
+    _b, tab_e, site_e, _rest = byte_table(f, "data::utf8_to_latin1", r, domain=dom)
+    enc = {cp: as_val(tab_e.get(cp)) for cp in dom}
+    site = dict(site_e)
+    multi = [cp for cp in dom if tab_e.get(cp, ("x",))[0] == "pushes"]
+    obs.append(Ob(r, "enc-push", not multi, "utf8_to_latin1 pushes exactly one byte per character", detail=multi[:5]))
     for cp in dom:
         want = ref_latin1(cp) if cp <= 0xFF else None
         got = enc.get(cp)
         ok = (got == ("val", want)) if want is not None else (got == ("none",))
         obs.append(Ob(r, "enc:U+%04X" % cp, ok, "utf8_to_latin1(U+%04X%s) = %s; ISO-8859-1 says %s" % (
             cp, "+" if cp == dom[-1] else "", _fmt(got), ("0x%02X" % want) if want is not None else "not representable (None)"), site=site.get(cp)))
-    # byte -> char
-    b2, table, site2, rest2 = None, None, None, None
-    b2, m2 = _byte_loop_match(f, "data::latin1_to_utf8_mut", r)
-    scrut2 = T.strip(m2["scrut"])["name"]
-    rows2, rest2 = T.int_match_table(m2, list(range(256)))
-    dec = {}
-    for vals, bind, guard, body, arm in rows2:
-        for v in vals:
-            dec[v] = _arm_result_with_scrut(f, body, bind, scrut2, v)
-            site[("d", v)] = T.span_str(arm["span"])
-    sts2, _ = T.fn_stmts(f, "data::latin1_to_utf8_mut")
-    pushes2 = [s for s in T.stmt_walk(sts2) if s[0] == "expr" and s[1][0] == "call" and s[1][1].endswith("String::push")]
-    obs.append(Ob(r, "dec-push", len(pushes2) == 1 and (pushes2[0][1][2][1][0] == "var" or (pushes2[0][1][2][1][0] == "match" and pushes2[0][1][2][1][1][:2] == ("var", "ch"))),
-                  "latin1_to_utf8_mut pushes exactly the matched char once per byte", detail=[T.sx_show(p[1]) for p in pushes2]))
+    # byte -> char: the loop body of latin1_to_utf8_mut folded for every byte
+    _b2, tab_d, site_d, _rest2 = byte_table(f, "data::latin1_to_utf8_mut", r)
+    dec = {v: as_val(tab_d.get(v)) for v in range(256)}
+    for v, sp in site_d.items():
+        site[("d", v)] = sp
+    multi = [v for v in range(256) if tab_d.get(v, ("x",))[0] == "pushes"]
+    obs.append(Ob(r, "dec-push", not multi, "latin1_to_utf8_mut pushes exactly one char per byte", detail=multi[:5]))
     for v in range(256):
         want = ref_latin1(v)
         got = dec.get(v)
@@ -288,8 +276,8 @@ def tab_dispatch(ctx):
     m = None
     for x in T.exprs(b["body"], "Match"):
         s = T.strip(x["scrut"])
-        if s.get("k") == "Var" and s["name"].startswith("eci#"):
-            m = x
+        if s.get("k") == "Var" and len(b["params"]) >= 2 and s["name"] == (b["params"][1].get("pat") or {}).get("name"):
+            m = x       # the match on the second parameter (the ECI number)
             break
     need(m, r, fn, "(match on eci)")
     dom = list(range(0, 64))
